@@ -43,6 +43,7 @@ func (s *State) clone() *State {
 
 // HeapCtx gives access to declarations for heap arrays.
 type HeapCtx struct {
+	namedC map[string]*Term // names of large provenance terms
 	ufunWF map[string]bool // slice-valued spec functions whose well-formedness axiom was emitted
 	w        *World
 	d        *Decls
@@ -570,15 +571,33 @@ func (h *HeapCtx) ancestors(t *Term) []ancestor {
 		if bound == nil {
 			bound = fp.next
 		} else {
-			bound = mk(SInt, "ite", Lt(fp.next, bound), fp.next, bound)
+			bound = h.named(mk(SInt, "ite", Lt(fp.next, bound), fp.next, bound))
 		}
 		if fp.cond != nil {
-			conds = append(conds, fp.cond)
+			conds = append(conds, h.named(fp.cond))
 		}
 		cur = fp.old
 		out = append(out, ancestor{t: cur, bound: bound, conds: append([]*Term{}, conds...)})
 	}
 	return out
+}
+
+// named: a large provenance term (nested min-of-bounds / conjunction of hop conditions) is given a name once, so that
+// chains through many merge points stay linear in size instead of tripling at every step.
+func (h *HeapCtx) named(t *Term) *Term {
+	if t == nil || len(t.S) < 400 || h.emit == nil {
+		return t
+	}
+	if h.namedC == nil {
+		h.namedC = map[string]*Term{}
+	}
+	if c, ok := h.namedC[t.S]; ok {
+		return c
+	}
+	c := h.d.Fresh("prov", t.Sort)
+	h.emit(Eq(c, t))
+	h.namedC[t.S] = c
+	return c
 }
 
 // noteMergeHop: the merged version nv of several versions that all descend from a common ancestor by fresh-only hops
@@ -604,7 +623,7 @@ func (h *HeapCtx) noteMergeHop(nv *Term, ts []*Term, edgeConds []*Term) {
 						if bound == nil {
 							bound = b.bound
 						} else {
-							bound = mk(SInt, "ite", Lt(b.bound, bound), b.bound, bound)
+							bound = h.named(mk(SInt, "ite", Lt(b.bound, bound), b.bound, bound))
 						}
 					}
 					for _, c := range b.conds {
@@ -624,7 +643,7 @@ func (h *HeapCtx) noteMergeHop(nv *Term, ts []*Term, edgeConds []*Term) {
 			}
 			var c *Term
 			if len(conds) > 0 {
-				c = And(conds...)
+				c = h.named(And(conds...))
 			}
 			h.freshFrom[nv.S] = freshProv{a.t, bound, c}
 			return
